@@ -45,6 +45,9 @@ def buildRightSemi (span : Span) (minLen maxLen : Option Int) : List Span :=
   let newStart := max (start + 1) (stop - maxLen)
   ((range newStart (stop + 1)).filter fun i => stop - i ≥ minLen).map fun i => (i, stop, value)
 
+/-- Python `l[a:b]` for non-negative `a`, `b` (used by the mechanically translated definitions) -/
+def pySlice {α} (l : List α) (a b : Int) : List α := (l.take b.toNat).drop a.toNat
+
 /-- insertion into a strictly increasing list, dropping duplicates (`sorted(set(..))`) -/
 def insertSorted (x : Int) : List Int → List Int
   | [] => [x]
